@@ -222,6 +222,127 @@ func render(items []item, eol string, finalNL bool) (text string, bounds []int) 
 	return sb.String(), bounds
 }
 
+// ---------------------------------------------------------------- leading / trailing material
+
+type decor struct{ name, text string }
+
+var leads = []decor{{"none", ""}, {"spaces", "    "}, {"tabs", "\t\t"}, {"block-comment", "/* l */ "}, {"space+block-comment", " /* l */\t"}}
+
+var trails = []decor{{"none", ""}, {"spaces", "  "}, {"line-comment", " // t"}, {"block-comment", " /* t */"}, {"block+line-comment", " /* t */ // u"}, {"glued-line-comment", "// t"}}
+
+// decorate adds leads[ld[k]] before and trails[tr[k]] after line k. It is accepted only
+// when the standard scanner sees exactly the same non-comment tokens as before (the
+// material added nothing but blanks and comments) and the standard parser still accepts
+// the item; otherwise ok is false (e.g. a line inside a raw string or a block comment).
+func decorate(it item, ld, tr []int) (d item, ok bool) {
+	if it.kind == "shebang" {
+		return it, false
+	}
+	l := make([]string, len(it.lines))
+	for k, s := range it.lines {
+		l[k] = leads[ld[k]].text + s + trails[tr[k]].text
+	}
+	d = item{l, it.kind}
+	before, e1 := scanAll([]byte(strings.Join(it.lines, "\n") + "\n"))
+	after, e2 := scanAll([]byte(strings.Join(l, "\n") + "\n"))
+	if len(e1) != 0 || len(e2) != 0 {
+		return it, false
+	}
+	var a, b []string
+	for _, t := range before {
+		if t.tok != token.COMMENT {
+			a = append(a, t.tok.String()+t.lit)
+		}
+	}
+	for _, t := range after {
+		if t.tok != token.COMMENT {
+			b = append(b, t.tok.String()+t.lit)
+		}
+	}
+	if strings.Join(a, "\x00") != strings.Join(b, "\x00") {
+		return it, false
+	}
+	if it.kind != "comment" && it.kind != "blank" && !validGo(strings.Join(l, "\n")) {
+		return it, false
+	}
+	return d, true
+}
+
+func family(kind string) string {
+	if k := strings.IndexByte(kind, '+'); k >= 0 {
+		return kind[:k]
+	}
+	return kind
+}
+
+// TestDecoratedItems: every item of the alphabet x every leading material x every trailing
+// material, applied (a) to the first line only, (b) to the last line only, (c) to every
+// line; the item is followed by a plain statement and, in half of the cases, preceded by one.
+func TestDecoratedItems(t *testing.T) {
+	if rec.ReplayOnly() {
+		return
+	}
+	buildAlphabet()
+	idx := 0
+	for _, it := range alphabet {
+		if it.kind == "blank" {
+			continue
+		}
+		for li := range leads {
+			for ti := range trails {
+				if li == 0 && ti == 0 {
+					continue
+				}
+				for mode := 0; mode < 3; mode++ {
+					if mode > 0 && len(it.lines) == 1 {
+						continue
+					}
+					idx++
+					if !rec.Mine(idx) {
+						continue
+					}
+					if !rec.Thorough() && len(it.lines) >= 3 && (idx+int(rec.Seed()))%4 != 0 {
+						continue // quick tier: a seed-chosen quarter of the items of 3 and 4 lines
+					}
+					ld, tr := make([]int, len(it.lines)), make([]int, len(it.lines))
+					for k := range it.lines {
+						if mode == 2 || mode == 0 && k == 0 || mode == 1 && k == len(it.lines)-1 {
+							ld[k], tr[k] = li, ti
+						}
+					}
+					d, ok := decorate(it, ld, tr)
+					if !ok {
+						rec.Label("decor:not-applicable(changes-tokens-or-rejected-by-go/parser)")
+						continue
+					}
+					items := []item{d, one("single", "z := 0")}
+					if idx%2 == 0 {
+						items = append([]item{one("single", "a := 1")}, items...)
+					}
+					text, bounds := render(items, "\n", true)
+					del := deliveries[idx%len(deliveries)]
+					c := Case{Text: text, Bounds: bounds, Delivery: del, ParseChunks: true, AllCom: idx%3 == 0, Origin: "decorated item"}
+					rec.Eval(1)
+					v, err := checkCase(c)
+					account(c, v)
+					if v.skipped == "" {
+						where := []string{"first-line", "last-line", "all-lines"}[mode]
+						rec.Label("decor:lead=" + leads[li].name + ",trail=" + trails[ti].name)
+						rec.Label("decor:" + family(it.kind) + ":" + where + ":lead=" + leads[li].name)
+						rec.Label("decor:" + family(it.kind) + ":" + where + ":trail=" + trails[ti].name)
+					}
+					if err != nil {
+						rec.Violation("decorated", caseJSON(c), "json", "%v", err)
+						t.Errorf("%v\ninput %q delivery %s", err, text, del)
+						return
+					}
+				}
+			}
+		}
+	}
+	rec.LabelN("decor:combinations-enumerated", idx)
+}
+
 var deliveries = []string{"lines", "buf", "buf16", "interp"}
 
 func TestAlphabetIsValid(t *testing.T) {
@@ -328,6 +449,7 @@ func TestRandomSequences(t *testing.T) {
 	rec.Check(t, rec.Scale(2500, 60000), func(t *rapid.T) {
 		n := rapid.IntRange(1, 12).Draw(t, "nitems")
 		var items []item
+		var decorLabels []string
 		for i := 0; i < n; i++ {
 			it := rapid.SampledFrom(alphabet).Draw(t, "item")
 			if rapid.IntRange(0, 4).Draw(t, "nest") == 0 {
@@ -351,12 +473,19 @@ func TestRandomSequences(t *testing.T) {
 					it = inner
 				}
 			}
-			if ind := rapid.SampledFrom([]string{"", "", "\t", "    "}).Draw(t, "indent"); ind != "" && !strings.Contains(strings.Join(it.lines, "\n"), "`") {
-				l := make([]string, len(it.lines))
-				for k, s := range it.lines {
-					l[k] = ind + s
+			if rapid.IntRange(0, 2).Draw(t, "decorate") != 0 {
+				// leading and trailing material drawn independently for every line of the item
+				ld, tr := make([]int, len(it.lines)), make([]int, len(it.lines))
+				for k := range it.lines {
+					ld[k] = rapid.IntRange(0, len(leads)-1).Draw(t, "lead")
+					tr[k] = rapid.IntRange(0, len(trails)-1).Draw(t, "trail")
 				}
-				it = item{l, it.kind}
+				if d, ok := decorate(it, ld, tr); ok {
+					it = d
+					for k := range ld {
+						decorLabels = append(decorLabels, "decor:random:lead="+leads[ld[k]].name+",trail="+trails[tr[k]].name)
+					}
+				}
 			}
 			items = append(items, it)
 		}
@@ -381,6 +510,9 @@ func TestRandomSequences(t *testing.T) {
 		if v.skipped == "" {
 			for _, it := range items {
 				rec.Label("item:" + it.kind)
+			}
+			for _, l := range decorLabels {
+				rec.Label(l)
 			}
 			rec.Label("eol:" + fmt.Sprintf("%q", eol))
 			if !finalNL {
